@@ -2,6 +2,8 @@
 Driver entry for property C17 (model: Molli.Model.Job). One request payload in, one response line out.
 Every string (names, values, contents) travels hex-encoded (UTF-8 bytes), `-` = empty.
 
+  bind2 <r|s> <jobattrs> <cls~defaulthex|-[|cls~default…]> <which name=path&…|-> <ev> …   ev = C<i>:<k>:<kwargs attrs>:<find 0|1> | m<i>:<attrs> | u<i> | d<i>
+      (driver classes sharing one job object; DriverBase.__init__ modelled by initAttrs; same response as `bind`)
   bind <r|s> <jobattrs> <clsattrs> <ev> <ev> ...
       attrs = <exe|->,<nprocs|->,<memory|->,<k=v&k=v|->        ev = c<i>:<attrs> | u<i> | m<i>:<attrs> (attributes reassigned) | d<i> (driver dropped)
       → one token per `u` event:  <exe|->,<nprocs>,<memory>,<k=v&… sorted|->   (none = unknown driver)
@@ -95,8 +97,51 @@ def parseFiles? (s : String) : Option (List (String × Bytes)) :=
 def parseRet? (s : String) : Option (Option (List String)) :=
   if s == "none" then some none else ((splitList s "&").mapM strOfHex?).map some
 
+/-- events of `bind2`: `C<i>:<k>:<attrs>:<find>` creates instance `i` of class `k` with keyword arguments `attrs`;
+`m<i>:<attrs>` assigns attributes; `u<i>`, `d<i>` as before.  Returns the model events (class attributes folded into the
+instance) -/
+def parseEv2? (which : String → Option String) (classes : List (Attrs × Option String))
+    (acc : Option (List Ev × List (Nat × Nat))) (s : String) : Option (List Ev × List (Nat × Nat)) := do
+  let (evs, owner) ← acc
+  if s.startsWith "C" then
+    match (s.drop 1).toString.splitOn ":" with
+    | [i, k, a, f] => do
+      let i ← i.toNat?; let k ← k.toNat?; let a ← parseAttrs? a
+      let (cls, decl) ← classes[k]?
+      pure (evs ++ [.create i (foldClass cls (initAttrs which decl a (f == "1")))], (i, k) :: owner.filter (·.1 != i))
+    | _ => none
+  else if s.startsWith "m" then
+    match (s.drop 1).toString.splitOn ":" with
+    | [i, a] => do
+      let i ← i.toNat?; let a ← parseAttrs? a
+      let k := ((owner.find? (·.1 == i)).map (·.2)).getD 0
+      let (cls, _) ← classes[k]?
+      pure (evs ++ [.mutate i (foldClass cls a)], owner)
+    | _ => none
+  else do
+    let e ← parseEv? s
+    pure (evs ++ [e], owner)
+
+def parseClass? (s : String) : Option (Attrs × Option String) :=
+  match s.splitOn "~" with
+  | [a, d] => do pure (← parseAttrs? a, ← optTok? strOfHex? d)
+  | _ => none
+
 def handle (payload : String) : String :=
   match words payload with
+  | "bind2" :: v :: job :: classes :: which :: evs =>
+    match parseVariant? v, parseAttrs? job, (classes.splitOn "|").mapM parseClass?, parseEnv? which with
+    | some v, some job, some classes, some wt =>
+      let which : String → Option String := fun n => dget wt n
+      match evs.foldl (parseEv2? which classes) (some ([], [])) with
+      | none => "err:bad-request"
+      | some (mevs, _) =>
+        let outs := (runEvs v {} { job := job, insts := [] } mevs).2
+        let uses := (mevs.zip outs).filterMap fun (e, o) => match e with
+          | .use _ => some (match o with | some b => showBound b | none => "none")
+          | _ => none
+        if uses.isEmpty then "-" else " ".intercalate uses
+    | _, _, _, _ => "err:bad-request"
   | "bind" :: v :: job :: cls :: evs =>
     match parseVariant? v, parseAttrs? job, parseAttrs? cls, evs.mapM parseEv? with
     | some v, some job, some cls, some evs =>
